@@ -180,9 +180,9 @@ CFG = {
     "shrink": False,
     "rule": ("prog: 1..4 generated snippets (regex literals with lastIndex, tagged templates incl. write attempts and no-op "
              "redefinition/freeze, classes with private names, eval/with dynamic scopes, folded constants, closures, generators/async, "
-             "stack traces) compiled once and run 1..2 times by each of 2..16 goroutines with their own Runtime; vals: 3..11 shared "
+             "stack traces, hoisted top-level var/function declarations) compiled once and run 1..2 times by each of 2..16 goroutines with their own Runtime, some of them (and optionally one before the concurrent phase) with a host-provided global object (SetGlobalObject) that already has properties named like the program's top-level declarations, plus a fresh Runtime afterwards; each compared with an isolated run of a separately compiled Program in the same kind of Runtime; vals: 3..11 shared "
              "primitive values (unscanned imported strings > 16 bytes, concatenations, substrings, symbols, numbers, StringFromUTF16) "
-             "used by 2..16 runtimes through a shared ops Program and the Go API; xrt: an Object of runtime A given to runtime B through Set/ToValue/Object.Set/NewArray/a Go function result/a direct Callable argument or this/Runtime.New arguments; "
+             "used by 2..16 runtimes through a shared ops Program and the Go API; xrt: an Object of runtime A given to runtime B through Set/ToValue/Object.Set/NewArray/a reflect-wrapped Go function result of every declared type (interface{}, goja.Value, (goja.Value, error), *goja.Object, (*goja.Object, error), multi-value)/a direct Callable argument or this/Runtime.New arguments; "
              "non-trivial = program ran without a top-level error on >= 2 goroutines / an unscanned imported string or > 2 values were "
              "shared / a foreign object was offered; distinct = by hash of the case"),
     "theorem_names": ["readonly_no_race", "program_run_readonly", "race_free_shared_program", "primitive_share",
